@@ -35,6 +35,13 @@ theorem events_complete (w : World) (r : Ret) :
     (w.complete r).events =
       ⟨(w.ctlOf w.tid).body, (w.ctlOf w.tid).pc, r, (w.ths.get w.tid).causality⟩ :: w.events := rfl
 
+theorem ctl_setObj (w : World) (o : Nat) (v : Obj) : (w.setObj o v).ctl = w.ctl := rfl
+theorem futs_setObj (w : World) (o : Nat) (v : Obj) : (w.setObj o v).futs = w.futs := rfl
+theorem tid_setObj (w : World) (o : Nat) (v : Obj) : (w.setObj o v).tid = w.tid := rfl
+theorem ctl_sync (w : World) : w.sync.ctl = w.ctl := rfl
+theorem futs_sync (w : World) : w.sync.futs = w.futs := rfl
+theorem tid_sync (w : World) : w.sync.tid = w.tid := rfl
+
 theorem getD_modify {α} (l : List α) (i t : Nat) (f : α → α) (d : α) :
     (l.modify i f)[t]?.getD d = if i = t ∧ t < l.length then f (l[t]?.getD d) else l[t]?.getD d := by
   simp only [List.getElem?_modify]
@@ -69,7 +76,8 @@ macro "bo_sat" : tactic => `(tactic|
 macro "bo_simp" : tactic => `(tactic|
   simp_all [CF, World.ctlOf, ctl_setStage, ctl_modCtl, ctl_modFut,
     ctl_complete, futs_setStage, futs_modCtl, futs_modFut, futs_complete, events_setStage,
-    events_modCtl, events_modFut, events_complete, getD_modify, World.pushObj, World.setObjs])
+    events_modCtl, events_modFut, events_complete, getD_modify, World.pushObj, World.setObjs,
+    ctl_setObj, futs_setObj, tid_setObj, ctl_sync, futs_sync, tid_sync])
 
 macro "bo_auto" h:ident : tactic => `(tactic|
   (mt_split $h
@@ -120,26 +128,72 @@ theorem blockOn_slotKept {w w' : World} {c : TCtl} {f mode : Nat}
 
 theorem blockOn_events {w w' : World} {c : TCtl} {f mode : Nat}
     (h : w.blockOnStage c f mode = .ok w') :
-    (c.stage ≠ 43 → c.stage ≠ 44 → c.stage ≠ 45 → w'.events = w.events) ∧
-    CompletesOnlyWith (.val 7) w w' := by
+    (c.stage ≠ 40 → c.stage ≠ 41 → c.stage ≠ 43 → c.stage ≠ 44 → c.stage ≠ 45 → c.stage ≠ 46 →
+      w'.events = w.events) ∧
+    (c.stage = 40 → mode ≠ 3 → mode ≠ 4 → w'.events = w.events) ∧
+    (c.stage ≠ 41 → CompletesOnlyWith (.val 7) w w') ∧
+    (c.stage = 41 → CompletesOnlyWith (.val 0) w w') := by
   unfold CompletesOnlyWith
   unfold World.blockOnStage at h
   bo_auto h
 
-theorem wake_noRepoll {w w' : World} {c : TCtl} {f : Nat} {b : Bool}
-    (h : w.wakeStage c f b = .ok w') : NoRepoll w w' := by
+/-- no thread newly enters stage `n` -/
+def NoEnter (n : Nat) (w w' : World) : Prop := ∀ t, (w'.ctlOf t).stage = n → (w.ctlOf t).stage = n
+
+/-- the "pending" return stage 41 (result `.val 0`) is entered only from the second flag check (stage 15) of a
+poll-once call (mode 4) -/
+theorem blockOn_noPending {w w' : World} {c : TCtl} {f mode : Nat}
+    (h : w.blockOnStage c f mode = .ok w') (h15 : c.stage ≠ 15 ∨ mode ≠ 4) : NoEnter 41 w w' := by
+  unfold NoEnter
+  unfold World.blockOnStage at h
+  bo_auto h
+
+/-- the second half of `Notify::wait` (stage 16) is entered only from stage 15 of a call that is not poll-once -/
+theorem blockOn_noWait {w w' : World} {c : TCtl} {f mode : Nat}
+    (h : w.blockOnStage c f mode = .ok w') (h15 : c.stage ≠ 15 ∨ mode = 4) : NoEnter 16 w w' := by
+  unfold NoEnter
+  unfold World.blockOnStage at h
+  bo_auto h
+
+/-- a poll-once call (mode 4) polls once: after the set-up it never moves a thread into the poll stage (stage 16,
+the only other source, is not entered in mode 4: `blockOn_noWait`) -/
+theorem blockOn_noRepoll4 {w w' : World} {c : TCtl} {f : Nat}
+    (h : w.blockOnStage c f 4 = .ok w') (h0 : c.stage ≠ 0) (h16 : c.stage ≠ 16) : NoRepoll w w' := by
+  unfold NoRepoll
+  unfold World.blockOnStage at h
+  bo_auto h
+
+/-- which waker is registered in the `AtomicWaker`s (`awArc`, `awNotify`) is as before -/
+def AwIdKept (w w' : World) : Prop :=
+  ∀ f', (w'.futs.getD f' {}).awArc = (w.futs.getD f' {}).awArc ∧
+    (w'.futs.getD f' {}).awNotify = (w.futs.getD f' {}).awNotify
+
+theorem blockOn_awIdKept {w w' : World} {c : TCtl} {f mode : Nat}
+    (h : w.blockOnStage c f mode = .ok w') (h21 : c.stage ≠ 21) : AwIdKept w w' := by
+  unfold AwIdKept
+  unfold World.blockOnStage at h
+  bo_auto h
+
+theorem wake_noRepoll {w w' : World} {c : TCtl} {f : Nat} {b st : Bool}
+    (h : w.wakeStage c f b st = .ok w') : NoRepoll w w' := by
   unfold NoRepoll
   unfold World.wakeStage at h
   bo_auto h
 
-theorem wake_awKept {w w' : World} {c : TCtl} {f : Nat} {b : Bool}
-    (h : w.wakeStage c f b = .ok w') : AwKept w w' := by
+theorem wake_awKept {w w' : World} {c : TCtl} {f : Nat} {b st : Bool}
+    (h : w.wakeStage c f b st = .ok w') : AwKept w w' := by
   unfold AwKept
   unfold World.wakeStage at h
   bo_auto h
 
-theorem wake_slotKept {w w' : World} {c : TCtl} {f : Nat} {b : Bool}
-    (h : w.wakeStage c f b = .ok w') (h2 : c.stage ≠ 2 ∨ b = false) : SlotKept w w' := by
+theorem wake_awIdKept {w w' : World} {c : TCtl} {f : Nat} {b st : Bool}
+    (h : w.wakeStage c f b st = .ok w') : AwIdKept w w' := by
+  unfold AwIdKept
+  unfold World.wakeStage at h
+  bo_auto h
+
+theorem wake_slotKept {w w' : World} {c : TCtl} {f : Nat} {b st : Bool}
+    (h : w.wakeStage c f b st = .ok w') (h2 : c.stage ≠ 2 ∨ b = false) : SlotKept w w' := by
   unfold SlotKept
   unfold World.wakeStage at h
   bo_auto h
@@ -153,6 +207,11 @@ theorem dropWaker_frames {w w' : World} {c : TCtl} {f : Nat}
   · unfold AwKept; bo_auto h
   · intro h1; unfold SlotKept; bo_auto h
 
+theorem dropWaker_awIdKept {w w' : World} {c : TCtl} {f : Nat}
+    (h : w.runOp c (.dropWaker f) = .ok w') : AwIdKept w w' := by
+  simp only [World.runOp] at h
+  unfold AwIdKept; bo_auto h
+
 theorem awWake_frames {w w' : World} {c : TCtl} {f : Nat}
     (h : w.runOp c (.awWake f) = .ok w') :
     NoRepoll w w' ∧ SlotKept w w' ∧ (c.stage ≠ 2 → AwKept w w') := by
@@ -162,6 +221,58 @@ theorem awWake_frames {w w' : World} {c : TCtl} {f : Nat}
   · unfold SlotKept; bo_auto h
   · intro h1; unfold AwKept; bo_auto h
 
+theorem awWake_awIdKept {w w' : World} {c : TCtl} {f : Nat}
+    (h : w.runOp c (.awWake f) = .ok w') : AwIdKept w w' := by
+  simp only [World.runOp] at h
+  unfold AwIdKept; bo_auto h
+
+theorem awTake_frames {w w' : World} {c : TCtl} {f : Nat}
+    (h : w.awTakeStage c f = .ok w') :
+    NoRepoll w w' ∧ SlotKept w w' ∧ (c.stage ≠ 1 → AwKept w w') ∧ AwIdKept w w' := by
+  unfold World.awTakeStage at h
+  refine ⟨?_, ?_, ?_, ?_⟩
+  · unfold NoRepoll; bo_auto h
+  · unfold SlotKept; bo_auto h
+  · intro h1; unfold AwKept; bo_auto h
+  · unfold AwIdKept; bo_auto h
+
+theorem wClone_frames {w w' : World} {c : TCtl} {f : Nat}
+    (h : w.runOp c (.wClone f) = .ok w') :
+    NoRepoll w w' ∧ SlotKept w w' ∧ AwKept w w' ∧ AwIdKept w w' := by
+  simp only [World.runOp] at h
+  refine ⟨?_, ?_, ?_, ?_⟩
+  · unfold NoRepoll; bo_auto h
+  · unfold SlotKept; bo_auto h
+  · unfold AwKept; bo_auto h
+  · unfold AwIdKept; bo_auto h
+
+theorem wakeH_frames {w w' : World} {c : TCtl} {f : Nat}
+    (h : w.runOp c (.wakeH f) = .ok w') :
+    NoRepoll w w' ∧ SlotKept w w' ∧ AwKept w w' ∧ AwIdKept w w' := by
+  simp only [World.runOp] at h
+  refine ⟨?_, ?_, ?_, ?_⟩
+  · unfold NoRepoll; bo_auto h
+  · unfold SlotKept; bo_auto h
+  · unfold AwKept; bo_auto h
+  · unfold AwIdKept; bo_auto h
+
+/-- the four operations of a cell section -/
+def IsCellOp : Op → Prop
+  | .cellReadBegin _ | .cellReadEnd _ | .cellWriteBegin _ _ | .cellWriteEnd _ => True
+  | _ => False
+
+theorem cellOp_frames {w w' : World} {c : TCtl} {op : Op} (hop : IsCellOp op)
+    (h : w.runOp c op = .ok w') :
+    NoRepoll w w' ∧ SlotKept w w' ∧ AwKept w w' ∧ AwIdKept w w' := by
+  cases op <;> simp only [IsCellOp] at hop
+  all_goals
+    simp only [World.runOp] at h
+    refine ⟨?_, ?_, ?_, ?_⟩
+    · unfold NoRepoll; bo_auto h
+    · unfold SlotKept; bo_auto h
+    · unfold AwKept; bo_auto h
+    · unfold AwIdKept; bo_auto h
+
 /-! ### the stages as equations (the defining equations of the twin, restated per stage) -/
 
 section equations
@@ -169,19 +280,21 @@ variable (w : World) (c : TCtl) (f mode : Nat)
 
 theorem blockOn_stage11 (hs : c.stage = 11) :
     w.blockOnStage c f mode = (do
-      let (w1, r) ← w.primEffect f (.load .acq)
-      if r == .val 1 then
+      let (w1, r) ← w.primEffect f (World.pollPrim mode)
+      if r == World.pollTarget mode then
         (w1.setStage 40).branch (w.arcInfo (w.futs.getD f {}).arc).obj .arcDec
       else
-        (w1.setStage (if mode == 0 then 12 else 20)).branch (w.arcInfo (w.futs.getD f {}).arc).obj
-          .arcInc) := by
+        (w1.setStage (if World.slotMode mode then 12 else 20)).branch
+          (w.arcInfo (w.futs.getD f {}).arc).obj .arcInc) := by
   unfold World.blockOnStage; simp only [hs]
 
 theorem blockOn_stage15 (hs : c.stage = 15) :
     w.blockOnStage c f mode = (do
-      let (w1, r) ← w.primEffect f (.load .acq)
-      if r == .val 1 then
+      let (w1, r) ← w.primEffect f (World.pollPrim mode)
+      if r == World.pollTarget mode then
         (w1.setStage 40).branch (w.arcInfo (w.futs.getD f {}).arc).obj .arcDec
+      else if mode == 4 then
+        (w1.setStage 41).branch (w.arcInfo (w.futs.getD f {}).arc).obj .arcDec
       else do
         let (w2, st) ← w1.notifyWait1 (w.futs.getD f {}).notify
         pure (w2.modCtl w1.tid fun c => { c with stage := if st == 1 then 16 else 10 })) := by
@@ -204,9 +317,11 @@ theorem blockOn_stage21 (hs : c.stage = 21) :
       let (w1, okk) ← w.postAcquire (w.futs.getD f {}).awMutex
       if !okk then (w1.setStage 22).branch (w.futs.getD f {}).notify .opaque
       else
-        let w2 := w1.modFut f fun s => { s with awWaker := true }
+        let w2 := w1.modFut f fun s => { s with awWaker := true, awArc := (w.futs.getD f {}).arc,
+                                                awNotify := (w.futs.getD f {}).notify }
         if (w.futs.getD f {}).awWaker then
-          (w2.setStage 25).branch (w.arcInfo (w.futs.getD f {}).arc).obj .arcDec
+          let w3 := w2.modCtl w2.tid fun c => { c with taken := (w.futs.getD f {}).awArc }
+          (w3.setStage 25).branch (w3.arcInfo (w.futs.getD f {}).awArc).obj .arcDec
         else do
           let w3 ← w2.releaseLock (w.futs.getD f {}).awMutex
           pure (w3.setStage 14)) := by
@@ -226,7 +341,7 @@ theorem blockOn_stage23 (hs : c.stage = 23) :
 
 theorem blockOn_stage25 (hs : c.stage = 25) :
     w.blockOnStage c f mode = (do
-      let w1 ← w.wakerDrop (w.futs.getD f {}).arc
+      let w1 ← w.wakerDrop c.taken
       let w2 ← w1.releaseLock (w.futs.getD f {}).awMutex
       pure (w2.setStage 14)) := by
   unfold World.blockOnStage; simp only [hs]
@@ -260,12 +375,19 @@ theorem blockOn_stage13 (hs : c.stage = 13) :
 theorem blockOn_stage40 (hs : c.stage = 40) :
     w.blockOnStage c f mode = (do
       let w1 ← w.wakerDrop (w.futs.getD f {}).arc
-      if mode == 0 then do
+      if World.slotMode mode then do
         let m ← w1.getMutex (w.futs.getD f {}).slotMutex
         (w1.setStage 45).branch (w.futs.getD f {}).slotMutex .opaque (block := m.lock.isSome)
+      else if mode == 3 || mode == 4 then pure (w1.complete (.val 7))
       else do
         let m ← w1.getMutex (w.futs.getD f {}).awMutex
         (w1.setStage 44).branch (w.futs.getD f {}).awMutex .opaque (block := m.lock.isSome)) := by
+  unfold World.blockOnStage; simp only [hs]
+
+theorem blockOn_stage41 (hs : c.stage = 41) :
+    w.blockOnStage c f mode = (do
+      let w1 ← w.wakerDrop (w.futs.getD f {}).arc
+      pure (w1.complete (.val 0))) := by
   unfold World.blockOnStage; simp only [hs]
 
 theorem blockOn_stage43 (hs : c.stage = 43) :
@@ -281,8 +403,15 @@ theorem blockOn_stage44 (hs : c.stage = 44) :
       let w2 := w1.modFut f fun s => { s with awWaker := false }
       let w3 ← w2.releaseLock (w.futs.getD f {}).awMutex
       if (w1.futs.getD f {}).awWaker then
-        (w3.setStage 43).branch (w.arcInfo (w.futs.getD f {}).arc).obj .arcDec
+        let w4 := w3.modCtl w3.tid fun c => { c with taken := (w.futs.getD f {}).awArc }
+        (w4.setStage 46).branch (w4.arcInfo (w.futs.getD f {}).awArc).obj .arcDec
       else pure (w3.complete (.val 7))) := by
+  unfold World.blockOnStage; simp only [hs]
+
+theorem blockOn_stage46 (hs : c.stage = 46) :
+    w.blockOnStage c f mode = (do
+      let w1 ← w.wakerDrop c.taken
+      pure (w1.complete (.val 7))) := by
   unfold World.blockOnStage; simp only [hs]
 
 theorem blockOn_stage45 (hs : c.stage = 45) :
@@ -296,35 +425,52 @@ theorem blockOn_stage45 (hs : c.stage = 45) :
       else pure (w3.complete (.val 7))) := by
   unfold World.blockOnStage; simp only [hs]
 
-theorem wake_stage2 (b : Bool) (hs : c.stage = 2) :
-    w.wakeStage c f b = (do
+theorem wake_stage0_quiet (b : Bool) (hs : c.stage = 0) :
+    w.wakeStage c f b false = (do
+      let m ← w.getMutex (w.futs.getD f {}).slotMutex
+      (w.setStage 2).branch (w.futs.getD f {}).slotMutex .opaque (block := m.lock.isSome)) := by
+  unfold World.wakeStage; simp only [hs]; rfl
+
+theorem wake_stage2 (b st : Bool) (hs : c.stage = 2) :
+    w.wakeStage c f b st = (do
       let (w1, okk) ← w.postAcquire (w.futs.getD f {}).slotMutex
       if !okk then throw .expectedLock
+      let w2 := w1.modCtl w1.tid fun c =>
+        { c with taken := (w.futs.getD f {}).arc, takenNotify := (w.futs.getD f {}).notify }
       if b then
-        let w2 := w1.modFut f fun s => { s with slot := false }
-        let w3 ← w2.releaseLock (w.futs.getD f {}).slotMutex
-        if (w1.futs.getD f {}).slot then (w3.setStage 3).branch (w.futs.getD f {}).notify .opaque
-        else pure (w3.complete .unit)
+        let w3 := w2.modFut f fun s => { s with slot := false }
+        let w4 ← w3.releaseLock (w.futs.getD f {}).slotMutex
+        if (w1.futs.getD f {}).slot then (w4.setStage 3).branch (w.futs.getD f {}).notify .opaque
+        else pure (w4.complete .unit)
       else
-        if (w1.futs.getD f {}).slot then (w1.setStage 5).branch (w.futs.getD f {}).notify .opaque
+        if (w1.futs.getD f {}).slot then (w2.setStage 5).branch (w.futs.getD f {}).notify .opaque
         else do
-          let w3 ← w1.releaseLock (w.futs.getD f {}).slotMutex
-          pure (w3.complete .unit)) := by
+          let w4 ← w2.releaseLock (w.futs.getD f {}).slotMutex
+          pure (w4.complete .unit)) := by
   unfold World.wakeStage; simp only [hs]
 
-theorem wake_stage3 (b : Bool) (hs : c.stage = 3) :
-    w.wakeStage c f b = (do
-      let w1 ← w.notifyEffect (w.futs.getD f {}).notify
-      (w1.setStage 4).branch (w1.arcInfo (w.futs.getD f {}).arc).obj .arcDec) := by
+theorem wake_stage3 (b st : Bool) (hs : c.stage = 3) :
+    w.wakeStage c f b st = (do
+      let w1 ← w.notifyEffect c.takenNotify
+      (w1.setStage 4).branch (w1.arcInfo c.taken).obj .arcDec) := by
   unfold World.wakeStage; simp only [hs]
 
-theorem wake_stage5 (b : Bool) (hs : 5 ≤ c.stage) :
-    w.wakeStage c f b = (do
-      let w1 ← w.notifyEffect (w.futs.getD f {}).notify
+theorem wake_stage4 (b st : Bool) (hs : c.stage = 4) :
+    w.wakeStage c f b st = (do
+      let w1 ← w.wakerDrop c.taken
+      pure (w1.complete .unit)) := by
+  unfold World.wakeStage; simp only [hs]
+
+theorem wake_stage5 (b st : Bool) (hs : 5 ≤ c.stage) :
+    w.wakeStage c f b st = (do
+      let w1 ← w.notifyEffect c.takenNotify
       let w2 ← w1.releaseLock (w.futs.getD f {}).slotMutex
       pure (w2.complete .unit)) := by
   obtain ⟨n, hn⟩ : ∃ n, c.stage = n + 5 := ⟨c.stage - 5, by omega⟩
   unfold World.wakeStage; simp only [hn]
+
+theorem wakeQ_eq : w.runOp c (.wakeQ f) = w.wakeStage c f false false := by
+  simp only [World.runOp]
 
 theorem awWake_stage2 (hs : c.stage = 2) :
     w.runOp c (.awWake f) = (do
@@ -333,15 +479,24 @@ theorem awWake_stage2 (hs : c.stage = 2) :
       let w2 := w1.modFut f fun s => { s with awWaker := false }
       let w3 ← w2.releaseLock (w.futs.getD f {}).awMutex
       if (w1.futs.getD f {}).awWaker then
-        (w3.setStage 3).branch (w3.futs.getD f {}).notify .opaque
+        let w4 := w3.modCtl w3.tid fun c =>
+          { c with taken := (w.futs.getD f {}).awArc, takenNotify := (w.futs.getD f {}).awNotify }
+        (w4.setStage 3).branch (w.futs.getD f {}).awNotify .opaque
       else pure (w3.complete .unit)) := by
   simp only [World.runOp, hs]
 
 theorem awWake_stage3 (hs : c.stage = 3) :
     w.runOp c (.awWake f) = (do
-      let w1 ← w.notifyEffect (w.futs.getD f {}).notify
-      (w1.setStage 4).branch (w1.arcInfo (w.futs.getD f {}).arc).obj .arcDec) := by
+      let w1 ← w.notifyEffect c.takenNotify
+      (w1.setStage 4).branch (w1.arcInfo c.taken).obj .arcDec) := by
   simp only [World.runOp, hs]
+
+theorem awWake_stage4 (hs : 4 ≤ c.stage) :
+    w.runOp c (.awWake f) = (do
+      let w1 ← w.wakerDrop c.taken
+      pure (w1.complete .unit)) := by
+  obtain ⟨n, hn⟩ : ∃ n, c.stage = n + 4 := ⟨c.stage - 4, by omega⟩
+  simp only [World.runOp, hn]
 
 theorem dropWaker_stage1 (hs : c.stage = 1) :
     w.runOp c (.dropWaker f) = (do
@@ -353,6 +508,68 @@ theorem dropWaker_stage1 (hs : c.stage = 1) :
         (w3.setStage 2).branch (w3.arcInfo (w.futs.getD f {}).arc).obj .arcDec
       else pure (w3.complete .unit)) := by
   simp only [World.runOp, hs]
+
+theorem awTake_stage1 (hs : c.stage = 1) :
+    w.runOp c (.awTake f) = (do
+      let (w1, okk) ← w.postAcquire (w.futs.getD f {}).awMutex
+      if !okk then throw .expectedLock
+      let w2 := w1.modFut f fun s => { s with awWaker := false }
+      let w3 ← w2.releaseLock (w.futs.getD f {}).awMutex
+      if (w1.futs.getD f {}).awWaker then
+        let w4 := w3.modCtl w3.tid fun c => { c with taken := (w.futs.getD f {}).awArc }
+        (w4.setStage 2).branch (w4.arcInfo (w.futs.getD f {}).awArc).obj .arcDec
+      else pure (w3.complete .unit)) := by
+  simp only [World.runOp, World.awTakeStage, hs]
+
+theorem awTake_stage2 (hs : 2 ≤ c.stage) :
+    w.runOp c (.awTake f) = (do
+      let w1 ← w.wakerDrop c.taken
+      pure (w1.complete .unit)) := by
+  obtain ⟨n, hn⟩ : ∃ n, c.stage = n + 2 := ⟨c.stage - 2, by omega⟩
+  simp only [World.runOp, World.awTakeStage, hn]
+
+theorem wClone_stage1 (hs : c.stage = 1) :
+    w.runOp c (.wClone f) = (do
+      let (w1, okk) ← w.postAcquire (w.futs.getD f {}).slotMutex
+      if !okk then throw .expectedLock
+      if (w1.futs.getD f {}).slot then
+        (w1.setStage 2).branch (w1.arcInfo (w.futs.getD f {}).arc).obj .arcInc
+      else do
+        let w2 ← w1.releaseLock (w.futs.getD f {}).slotMutex
+        pure (w2.complete (.val 0))) := by
+  simp only [World.runOp, hs]
+
+theorem wClone_stage2 (hs : 2 ≤ c.stage) :
+    w.runOp c (.wClone f) = (do
+      let w1 ← w.wakerClone (w.futs.getD f {}).arc
+      let w2 := w1.modCtl w1.tid fun c =>
+        { c with held := (f, (w.futs.getD f {}).arc, (w.futs.getD f {}).notify) :: c.held.filter (·.1 != f) }
+      let w3 ← w2.releaseLock (w.futs.getD f {}).slotMutex
+      pure (w3.complete (.val 1))) := by
+  obtain ⟨n, hn⟩ : ∃ n, c.stage = n + 2 := ⟨c.stage - 2, by omega⟩
+  simp only [World.runOp, hn]
+
+theorem wakeH_none (hh : c.held.lookup f = none) :
+    w.runOp c (.wakeH f) = pure (w.complete .unit) := by
+  simp only [World.runOp, hh]
+
+theorem wakeH_stage0 (a n : Nat) (hh : c.held.lookup f = some (a, n)) (hs : c.stage = 0) :
+    w.runOp c (.wakeH f) = (w.setStage 1).branch n .opaque := by
+  simp only [World.runOp, hh, hs]
+
+theorem wakeH_stage1 (a n : Nat) (hh : c.held.lookup f = some (a, n)) (hs : c.stage = 1) :
+    w.runOp c (.wakeH f) = (do
+      let w1 ← w.notifyEffect n
+      (w1.setStage 2).branch (w1.arcInfo a).obj .arcDec) := by
+  simp only [World.runOp, hh, hs]
+
+theorem wakeH_stage2 (a n : Nat) (hh : c.held.lookup f = some (a, n)) (hs : 2 ≤ c.stage) :
+    w.runOp c (.wakeH f) = (do
+      let w1 ← w.wakerDrop a
+      let w2 := w1.modCtl w1.tid fun c => { c with held := c.held.filter (·.1 != f) }
+      pure (w2.complete .unit)) := by
+  obtain ⟨k, hk⟩ : ∃ k, c.stage = k + 2 := ⟨c.stage - 2, by omega⟩
+  simp only [World.runOp, hh, hk]
 
 end equations
 
